@@ -47,6 +47,12 @@ def step(cells, state, sent):
         P = (tag,)
         nD = {"D": D, "D+P": D + P, "P": P, "[]": ()}.get(c.post_D)
         delivered = {"P": P, "D+P": D + P, None: None}.get(c.delivered)
+        if nD is None or (c.delivered is not None and delivered is None):
+            # an effect on the buffer the reference machine has no name for (reported by (1) as well)
+            o = ("?an effect outside the machine's vocabulary (%s / %s); " % (c.post_D, c.delivered), state, None)
+            if o not in outs:
+                outs.append(o)
+            continue
         o = (c.result, (nsid, ns, nD), delivered)
         if o not in outs:
             outs.append(o)
